@@ -1153,10 +1153,13 @@ func (x *Exec) doBinOp(st *State, fr *Frame, n *ssa.BinOp) Val {
 		if srt == "String" {
 			return out(fmt.Sprintf("(str.++ %s %s)", at, bt))
 		}
+		x.overflowCheck(st, n, fmt.Sprintf("(+ %s %s)", at, bt))
 		return out(fmt.Sprintf("(+ %s %s)", at, bt))
 	case token.SUB:
+		x.overflowCheck(st, n, fmt.Sprintf("(- %s %s)", at, bt))
 		return out(fmt.Sprintf("(- %s %s)", at, bt))
 	case token.MUL:
+		x.overflowCheck(st, n, fmt.Sprintf("(* %s %s)", at, bt))
 		return out(fmt.Sprintf("(* %s %s)", at, bt))
 	case token.QUO:
 		if bt == "0" {
@@ -1184,6 +1187,43 @@ func (x *Exec) doBinOp(st *State, fr *Frame, n *ssa.BinOp) Val {
 	x.abstr["binary operator "+n.Op.String()] = true
 	st.taint = true
 	return x.havocVal(st, "binop", n.Type())
+}
+
+// overflowCheck: integers are mathematical in the model; every explicit + - * on a machine integer type gets the
+// obligation that the mathematical result is representable (so the model and the machine agree). The implicit
+// counter of a range loop (rangeindex, bounded by a length) is exempt.
+func (x *Exec) overflowCheck(st *State, n *ssa.BinOp, res string) {
+	b, ok := n.Type().Underlying().(*types.Basic)
+	if !ok || b.Info()&types.IsInteger == 0 {
+		return
+	}
+	if u, ok := n.X.(*ssa.UnOp); ok {
+		if al, ok := u.X.(*ssa.Alloc); ok && al.Comment == "rangeindex" {
+			return
+		}
+	}
+	var lo, hi string
+	switch b.Kind() {
+	case types.Int, types.Int64:
+		lo, hi = "(- 9223372036854775808)", "9223372036854775807"
+	case types.Int32:
+		lo, hi = "(- 2147483648)", "2147483647"
+	case types.Int16:
+		lo, hi = "(- 32768)", "32767"
+	case types.Int8:
+		lo, hi = "(- 128)", "127"
+	case types.Uint, types.Uint64, types.Uintptr:
+		lo, hi = "0", "18446744073709551615"
+	case types.Uint32:
+		lo, hi = "0", "4294967295"
+	case types.Uint16:
+		lo, hi = "0", "65535"
+	case types.Uint8:
+		lo, hi = "0", "255"
+	default:
+		return
+	}
+	x.emit(st, "safety:overflow", "safety", fmt.Sprintf("(and (<= %s %s) (<= %s %s))", lo, res, res, hi), nil, n.Pos())
 }
 
 // equal builds the equality term of two Go values of the same static type.
@@ -1301,7 +1341,12 @@ func (x *Exec) doSlice(st *State, fr *Frame, n *ssa.Slice) Val {
 		if isByteSlice(n.Type()) {
 			x.abstr["byte array sliced"] = true
 			st.taint = true
-			return x.havocVal(st, "bytes", n.Type())
+			bv := x.havocVal(st, "bytes", n.Type())
+			if x.C.sortOf(n.Type()) == "String" {
+				// the contents are not modelled, the length is
+				st.assume(fmt.Sprintf("(= (str.len %s) (- %s %s))", bv.Term, hi, lo))
+			}
+			return bv
 		}
 		if lo == "0" && n.High == nil {
 			return Val{T: n.Type(), Term: fmt.Sprintf("(mkSlice %s %d %d)", l.Ref, arr.Len(), arr.Len())}
@@ -1554,7 +1599,95 @@ func (x *Exec) doMakeClosure(st *State, fr *Frame, n *ssa.MakeClosure) Val {
 		binds = append(binds, x.val(st, fr, b))
 	}
 	x.closures[ref] = &closureInfo{fn: fn, binds: binds}
+	x.constClosure(st, fr, n, fn, binds, ref)
 	return Val{T: n.Type(), Term: ref}
+}
+
+// constClosure: a closure of a literal declared `constfn v` (and proved to return (*v, nil) on every path: its clause
+// CONST) is a constant function when the captured variable v is written exactly once in the function that makes the
+// closure (before the closure exists) and never by the literal: then *v at every later call is the value it has now.
+func (x *Exec) constClosure(st *State, fr *Frame, n *ssa.MakeClosure, fn *ssa.Function, binds []Val, ref string) {
+	con := x.Lib.Funcs[funcKey(fn)]
+	if con == nil || con.ConstFn == "" {
+		return
+	}
+	okClause := false
+	want := "err == nil && val == *" + con.ConstFn
+	for _, c := range con.Ensures {
+		if c.Label == "CONST" && strings.Join(strings.Fields(c.Text), " ") == want {
+			okClause = true
+		}
+	}
+	if !okClause {
+		x.bail("constfn %s: the literal needs the clause `ensures CONST: %s`", con.Key, want)
+	}
+	for i, fv := range fn.FreeVars {
+		if fv.Name() != con.ConstFn || i >= len(n.Bindings) {
+			continue
+		}
+		// the literal never stores to the captured variable
+		if fv.Referrers() != nil {
+			for _, r := range *fv.Referrers() {
+				if sto, ok := r.(*ssa.Store); ok && sto.Addr == fv {
+					return
+				}
+				if _, ok := r.(*ssa.UnOp); !ok {
+					return // address passed on: give up
+				}
+			}
+		}
+		al, ok := n.Bindings[i].(*ssa.Alloc)
+		if !ok || al.Referrers() == nil {
+			return
+		}
+		stores := 0
+		for _, r := range *al.Referrers() {
+			switch r := r.(type) {
+			case *ssa.Store:
+				if r.Addr != al {
+					return // the address itself is stored somewhere
+				}
+				stores++
+				if !r.Block().Dominates(n.Block()) || (r.Block() == n.Block() && !before(r, n)) {
+					return
+				}
+			case *ssa.UnOp, *ssa.DebugRef:
+			case *ssa.MakeClosure:
+				if r != n {
+					return // captured by another closure as well
+				}
+			default:
+				return
+			}
+		}
+		if stores != 1 {
+			return
+		}
+		loc := binds[i].Loc
+		if loc == nil {
+			loc = x.ptrLoc(st, binds[i])
+		}
+		if loc == nil || loc.Kind == locNone {
+			return
+		}
+		cur := x.loadLoc(st, loc)
+		x.C.decl("(declare-fun pfConst (Int) Bool)")
+		x.C.decl("(declare-fun pfRet (Int) Iface)")
+		st.assume(fmt.Sprintf("(and (pfConst %s) (= (pfRet %s) %s))", ref, ref, cur.Term))
+		x.C.used["closure rule: a closure of "+con.Key+" (proved to return its captured write-once variable) is a constant function"] = true
+	}
+}
+
+func before(a, b ssa.Instruction) bool {
+	for _, in := range a.Block().Instrs {
+		if in == a {
+			return true
+		}
+		if in == b {
+			return false
+		}
+	}
+	return false
 }
 
 type closureInfo struct {
